@@ -300,6 +300,7 @@ def generate() -> str:
 
 EXTRA_SECTIONS: list = []
 from extract_pytree import pytree_facts; EXTRA_SECTIONS.append(pytree_facts)
+from extract_prov import section as _prov_section; EXTRA_SECTIONS.append(_prov_section)  # M7 (C18)
 
 
 def main(write: bool = True) -> int:
